@@ -444,7 +444,7 @@ theorem locks_in_place :
     Generated.C08.goFacts.getFuncNoDefFrameWrite = true ∧ Generated.C08.goFacts.selectDoneLocked = true ∧
     Generated.C08.goFacts.goBinArgsCopied = true ∧ Generated.C08.goFacts.wrapperFramePerCall = true ∧
     Generated.C08.goFacts.selectCopiesCases = true ∧ Generated.C08.goFacts.callBinGoArgsCopied = true ∧
-    Generated.C08.goFacts.wrapperRecvBound = true := by
+    Generated.C08.goFacts.wrapperRecvBound = true ∧ Generated.C08.goFacts.callFrameLocked = true := by
   rw [gofacts_tie]; decide
 
 end YaegiVerif.Props.C08
